@@ -32,6 +32,7 @@ func LoadEngine(repo string) (*Engine, error) {
 	prog, spkgs := ssautil.AllPackages(pkgs, ssa.GlobalDebug|ssa.BareInits)
 	prog.Build()
 	e := &Engine{RepoDir: repo, W: newWorld(), Prog: prog, Funcs: map[string]*ssa.Function{}, InitOnlyGlobals: map[*ssa.Global]bool{}, GlobalInit: map[*ssa.Global]ssa.Value{}}
+	e.loadBindings()
 	if len(pkgs) > 0 {
 		e.Fset = pkgs[0].Fset
 	}
